@@ -390,6 +390,7 @@ func labPol(e labEnv) {
 		tags["rdns_cache_sequences"]++
 	}
 	hsTimedCases(e.t, r, n/2, w, tags)
+	reqTimingCases(e.t, r, n/2, w, tags)
 	must(w.close())
 	writeDist(e, "pol", tags)
 }
